@@ -170,6 +170,7 @@ structure Stack where
   sendLog : List (Dest × (Bool × Nat)) := []     -- ghost: every (destination, (reboot flag, session id)) send_sd drew from the session storage
   flushLog : List (Dest × List SDEntry) := []    -- ghost: every batch of queued entries handed to send_sd (zero timeout: singletons; else a closed window)
   findTask : Option Nat := none
+  findLog : List (Nat × Nat) := []               -- ghost: (find task, round index) of every FindService message handed to send_sd
   -- ServiceSubscriber
   alive : Bool := false
   subTask : Option Nat := none
@@ -678,7 +679,7 @@ def stepFind (s : Stack) (tid : Tid) (t : TaskSt) : Stack :=
     if k < s.tm.repetitionsMax then s.sleepFor tid t (pow2 k * s.tm.repetitionsBaseDelay) (.rep k) else s.finish tid t
   let round (s : Stack) (k : Nat) : Stack :=
     let es := s.findEntries
-    if es.isEmpty then s.finish tid t else afterSend (s.sendSd es none) k
+    if es.isEmpty then s.finish tid t else afterSend (({ s with findLog := s.findLog ++ [(tid.2, k)] } : Stack).sendSd es none) k
   match t.pc with
   | .created =>
     if t.cancelled then s.finish tid t
